@@ -130,8 +130,24 @@ def erase_streams(struct):
     return go(struct)
 
 
+def const_member(v, fieldterm):
+    """value of a const data member with a constant in-class initialiser (`const int32_t TYPE_UID = 43;`), else None"""
+    if fieldterm[0] != "fld":
+        return None
+    vals = set()
+    for r in v.records.values():
+        for fl in r["fields"]:
+            if fl["n"] == fieldterm[2] and fl.get("const") and isinstance(fl.get("init"), dict):
+                cv = fl["init"].get("cv", fl["init"].get("v") if fl["init"].get("k") == "int" else None)
+                if cv is not None:
+                    vals.add(int(cv))
+    return vals.pop() if len(vals) == 1 else None
+
+
 def glob_const(v, term):
     """value of &global-const pointer terms (tag constants)"""
+    if term[0] == "addr" and term[1][0] == "fld":
+        return const_member(v, term[1])
     if term[0] == "addr" and term[1][0] == "glob":
         s = v.statics.get(term[1][1])
         if s and s.get("const") and s.get("init") and "cv" in s["init"]:
@@ -139,6 +155,9 @@ def glob_const(v, term):
         if s and s.get("const") and s.get("init") and s["init"].get("k") == "int":
             return int(s["init"]["v"])
     return None
+
+
+_V = [None]          # variant used by tag_checks for const data members
 
 
 def tag_checks(eff):
@@ -151,6 +170,10 @@ def tag_checks(eff):
         if c[0] == "op" and c[1] in ("!=", "==") and c[2][0] == "var" and c[3][0] == "int":
             exits = (x.get("then_status") == "exit") if c[1] == "!=" else (x.get("else_status") == "exit")
             out[c[2]] = (c[3][1], exits, x["l"])
+        elif c[0] == "op" and c[1] in ("!=", "==") and c[2][0] == "var" and c[3][0] == "fld" and _V[0] is not None and \
+                const_member(_V[0], c[3]) is not None:
+            exits = (x.get("then_status") == "exit") if c[1] == "!=" else (x.get("else_status") == "exit")
+            out[c[2]] = (const_member(_V[0], c[3]), exits, x["l"])
     return out
 
 
@@ -190,6 +213,7 @@ def compare(chk, v, tname, W, R, where, vn):
     rw = lambda t: norm_props(sym.rewrite(sym.subst(t, canon), alias))       # reader term -> canonical
     wa = lambda t: sym.rewrite(t, alias)                                      # writer pointer -> canonical
     wv = lambda t: sym.rewrite(sym.rewrite(t, alias), heap_n)                 # writer value in the reader's heap
+    _V[0] = v
     tags = tag_checks(R["eff"])
     dest = {}
     for x in flat(R["eff"]):
